@@ -222,6 +222,13 @@ func work(id string, p Prop, args []string) int {
 		for k, n := range v.Faults {
 			o.Faults[k] += n
 		}
+		if sim.Tainted != 0 && !v.Violation {
+			// a task had to be stopped for good while it held a lock of the library: the lock
+			// stays taken, this process cannot judge further cases
+			o.Discards["tainted:lock-held-by-a-stopped-task"]++
+			o.Tainted = true
+			break
+		}
 		if v.Discard != "" {
 			o.Discards[v.Discard]++
 			if strings.HasPrefix(v.Discard, "taint") {
